@@ -206,6 +206,32 @@ func c05Run(c *core.Ctx, cs c05Case) c05Result {
 	return out
 }
 
+// c05SymlinkBases: rules/real.yml plus rules/link.yml -> real.yml; two path-scoped rule blocks report a missing
+// annotation at chosen severities for the real name and for the link name.
+func c05SymlinkBases(n int, c *core.Ctx) (out []c05Base) {
+	for i := 0; i < n; i++ {
+		r := c.Rand("c05sym", i)
+		sevReal := []string{"", "info", "warning", "bug"}[r.Intn(4)]
+		sevLink := []string{"info", "warning", "bug", "fatal"}[r.Intn(4)]
+		cfg := "checks {\n  enabled = [\"alerts/annotation\"]\n}\n"
+		if sevReal != "" {
+			cfg += fmt.Sprintf("rule {\n  match {\n    path = \"rules/real.yml\"\n  }\n  annotation \"runbook\" {\n    required = true\n    severity = %q\n  }\n}\n", sevReal)
+		}
+		cfg += fmt.Sprintf("rule {\n  match {\n    path = \"rules/link.yml\"\n  }\n  annotation \"summary\" {\n    required = true\n    severity = %q\n  }\n}\n", sevLink)
+		if r.Intn(2) == 0 {
+			// both names also share a problem
+			cfg += "rule {\n  annotation \"dashboard\" {\n    required = true\n    severity = \"info\"\n  }\n}\n"
+		}
+		var b strings.Builder
+		b.WriteString("groups:\n- name: g\n  rules:\n")
+		for k := 0; k < 1+r.Intn(3); k++ {
+			fmt.Fprintf(&b, "  - alert: A%d\n    expr: up == 0\n    for: 5m\n", k)
+		}
+		out = append(out, c05Base{Config: cfg, Files: map[string]string{"rules/real.yml": b.String(), "rules/link.yml": SymlinkPrefix + "real.yml"}})
+	}
+	return out
+}
+
 func c05Expected(sevs []string, failOn string) int {
 	th := 2
 	switch failOn {
@@ -243,14 +269,26 @@ func runC05(c *core.Ctx) int {
 		return 0
 	}
 	nBases := c.N(24, 400)
+	// the same file reached under its own name and through a symbolic link, with path-scoped configuration that gives
+	// the two names different problems (the higher severity on either side, the other side clean or not)
+	symBases := c05SymlinkBases(c.N(6, 48), c)
 	type job struct {
 		base int
 		cs   c05Case
 	}
-	bases := make([]c05Base, nBases)
+	bases := make([]c05Base, nBases+len(symBases))
 	var jobs []job
 	failOns := []string{"", "fatal", "bug", "warning", "info"}
 	for i := range bases {
+		if i >= nBases {
+			bases[i] = symBases[i-nBases]
+			for _, f := range failOns {
+				for _, sd := range []bool{false, true} {
+					jobs = append(jobs, job{i, c05Case{Base: bases[i], Command: "lint", FailOn: f, MinSev: "info", ShowDup: sd}})
+				}
+			}
+			continue
+		}
 		bases[i] = c05RandBase(c.Rand("c05", i), i%6)
 		for _, f := range failOns {
 			for _, ms := range sevNames {
